@@ -61,7 +61,9 @@ SEMANTICS: List[str] = [
     'right-hand sides that read another target table of the same joined row see that table\'s values from before this joined '
     'row was applied (MySQL documents the order as undefined)',
     'DELETE fires BEFORE/AFTER DELETE triggers per row; multi-table `DELETE t FROM t JOIN ...` supported',
-    'foreign keys are recorded but not enforced; deleting a row that is still referenced through a recorded FOREIGN KEY raises Unsupported',
+    'foreign keys: INSERT / UPDATE of a child row whose (all non-NULL) key has no parent row raises 1452 (IntegrityError), checked per '
+    'row at write time; constraint names follow InnoDB (<table>_ibfk_<n>) so that DROP FOREIGN KEY in the migrations is honoured; '
+    'ON DELETE actions are not modelled: deleting a row that is still referenced raises Unsupported',
     'SELECT ... INTO with no row leaves the variables unchanged and raises the NOT FOUND condition (1329): a CONTINUE/EXIT HANDLER '
     'FOR NOT FOUND in scope runs, otherwise it is only a warning; more than one row -> 1172',
     'FETCH past the end raises NOT FOUND (an error when unhandled); cursors materialise their result at OPEN',
@@ -211,6 +213,8 @@ class MiniDB(QueryMixin, DMLMixin, ProgramMixin):
         self.routine_sources: Dict[str, str] = {}
         self.triggers: Dict[Tuple[str, str, str], List[Any]] = {}
         self.fk_children: Dict[str, List[Tuple[str, List[str], List[str]]]] = {}
+        self.fk_parents: Dict[str, List[Tuple[str, Tuple[str, ...], str, Tuple[str, ...]]]] = {}
+        self.enforce_foreign_keys = True
         self.cs_columns: frozenset = frozenset()
         self.strict_isolation = True
         self._sig = None
@@ -241,6 +245,9 @@ class MiniDB(QueryMixin, DMLMixin, ProgramMixin):
         for fk in schema_table.fks:
             self.fk_children.setdefault(fk['ref_table'].lower(), []).append(
                 (t.name, [c.lower() for c in fk['columns']], [c.lower() for c in fk['ref_columns']]))
+            self.fk_parents.setdefault(t.name, []).append(
+                (fk.get('name', '?'), tuple(c.lower() for c in fk['columns']), fk['ref_table'].lower(),
+                 tuple(c.lower() for c in fk['ref_columns'])))
         return t
 
     def create_table(self, ddl: str):
